@@ -71,6 +71,9 @@ func (s *sim) Next(rng *simcore.RNG) simcore.Op {
 	if s.mode == "wild" && s.idleOps > 60 && s.pendingCall() == nil {
 		return nil // nothing has happened at the application or on the wire for a long while
 	}
+	if s.mode != "wild" && (s.contractBroken != "" || s.now()-s.lastProgress > stuckAfter+5*time.Second) {
+		return nil // Finish judges
+	}
 	s.opsLeft--
 	wild := s.mode == "wild"
 	flag := func(n string) bool { return wild && s.cfg.Bool(n) }
@@ -106,6 +109,7 @@ func (s *sim) Next(rng *simcore.RNG) simcore.Op {
 		aRPC
 		aGrow
 		aBadMsg
+		aDrop
 		nActs
 	)
 	w := make([]int, nActs)
@@ -140,6 +144,38 @@ func (s *sim) Next(rng *simcore.RNG) simcore.Op {
 	if w[aVerdict]+w[aAnsChunk] == 0 && !fresh {
 		w[aTick] = 40
 	}
+	// cooperative modes: keep the contract (see forceAfter)
+	tickCap := len(tickMs)
+	var oldest *chunkReq
+	var droppable []chunkReq
+	if !wild {
+		if w[aVerdict] > 0 || fresh || len(alive) == 0 {
+			w[aTick] = 0
+		}
+		for i := range s.outstanding {
+			r := &s.outstanding[i]
+			if oldest == nil || r.at < oldest.at {
+				oldest = r
+			}
+			if s.drops[[3]uint64{r.h, uint64(r.f), uint64(r.i)}] < s.dropBudget() {
+				droppable = append(droppable, *r)
+			}
+		}
+		if oldest != nil {
+			tickCap = 3 // at most 2111 ms at a time while an answer is owed
+			if s.now()-oldest.at > forceAfter && w[aVerdict] == 0 {
+				for i := range w {
+					w[i] = 0
+				}
+				w[aAnsChunk] = 1
+			} else {
+				oldest = nil
+			}
+		}
+		if len(droppable) > 0 && w[aAnsChunk] > 1 {
+			w[aDrop] = 5
+		}
+	}
 	if flag("f_rpc") && len(s.rpc) == 2 {
 		w[aRPC] = 1
 	}
@@ -154,6 +190,9 @@ func (s *sim) Next(rng *simcore.RNG) simcore.Op {
 		return s.drawVerdict(rng, pend)
 	case aAnsChunk:
 		r := s.outstanding[rng.Intn(len(s.outstanding))]
+		if oldest != nil {
+			r = *oldest
+		}
 		p := r.peer
 		if !s.alive[p] || (flag("f_chunk") && rng.Bool(0.15)) {
 			p = alive[rng.Intn(len(alive))]
@@ -205,12 +244,19 @@ func (s *sim) Next(rng *simcore.RNG) simcore.Op {
 		return o
 	case aGrow:
 		return simcore.Op{"a": "grow", "n": rng.Range(1, 3), "seed": rng.Intn(1 << 30)}
+	case aDrop:
+		r := droppable[rng.Intn(len(droppable))]
+		return simcore.Op{"a": "drop", "q": r.peer, "h": r.h, "f": r.f, "i": r.i}
 	case aBadMsg:
 		return simcore.Op{"a": "badmsg", "p": alive[rng.Intn(len(alive))], "v": rng.Intn(5)}
 	}
 	ms := tickMs[rng.Weighted([]int{6, 10, 14, 12, 10, 10, 3, 4})]
 	if !wild {
-		ms = tickMs[rng.Weighted([]int{4, 8, 12, 12, 10, 6, 0, 0})]
+		wt := []int{4, 8, 12, 12, 10, 6, 0, 0}
+		for i := tickCap; i < len(wt); i++ {
+			wt[i] = 0
+		}
+		ms = tickMs[rng.Weighted(wt)]
 	}
 	return simcore.Op{"a": "tick", "ms": ms}
 }
@@ -493,6 +539,7 @@ func (s *sim) Apply(op simcore.Op) bool {
 		}
 		s.nDeliv++
 		if !miss {
+			delete(s.drops, [3]uint64{h, uint64(f), uint64(idx)})
 			id := peerID(p)
 			_, rej := s.rejectedPeer[id]
 			if rej {
@@ -539,8 +586,29 @@ func (s *sim) Apply(op simcore.Op) bool {
 		s.pending = nil
 		s.mu.Unlock()
 		s.release <- v
+		s.lastProgress = s.now()
 		s.settle()
 		s.afterVerdict(c)
+	case "drop":
+		// a request that gets no answer (lost message / silent peer); fair: bounded per chunk
+		h, f, idx, q := uint64(op.Int64("h")), uint32(op.Int("f")), uint32(op.Int("i")), op.Int("q")
+		key := [3]uint64{h, uint64(f), uint64(idx)}
+		if s.drops[key] >= s.dropBudget() {
+			return false
+		}
+		found := false
+		for i, r := range s.outstanding {
+			if r.peer == q && r.h == h && r.f == f && r.i == idx {
+				s.outstanding = append(s.outstanding[:i], s.outstanding[i+1:]...)
+				found = true
+				break
+			}
+		}
+		if !found {
+			return false
+		}
+		s.drops[key]++
+		e.Count("fault.chunk_request_dropped")
 	case "tick":
 		ms := op.Int("ms")
 		if ms <= 0 || ms > 200000 {
